@@ -45,6 +45,7 @@ type ref struct {
 	fns   [][]Stmt
 	trace strings.Builder
 	steps int // statements executed; the generators discard cases that run too long
+	limit int // the run is cut after this many statements
 	// evidence that a case re-enters: calls of named functions made while some activation holds a pending
 	// control over a finally block (return / throw / break / continue) or a caught object in a catch body
 	pend, pendingCalls int
@@ -52,6 +53,16 @@ type ref struct {
 
 // a case whose reference run executes more statements than this is not used
 const stepLimit = 4000
+
+// … except the long-running programs (Case.Long): thousands of iterations of a short body
+const longStepLimit = 600000
+
+func (c Case) stepLimit() int {
+	if c.Long {
+		return longStepLimit
+	}
+	return stepLimit
+}
 
 func (r *ref) supertypes(cls int) map[int]bool {
 	seen := map[int]bool{}
@@ -116,7 +127,7 @@ func (r *ref) called(c completion) completion {
 
 func (r *ref) stmt(s Stmt, caught *thrown, lvl int) completion {
 	r.steps++
-	if r.steps > stepLimit {
+	if r.steps > r.limit {
 		return completion{kind: cHostFailure}
 	}
 	tagged := func(v int) int { return lvl*levelMul + v }
@@ -222,7 +233,7 @@ func referenceSteps(c Case) (final, trace string, steps int) {
 }
 
 func referenceFull(c Case) (final, trace string, steps, pendingCalls int) {
-	r := &ref{g: c.G, fns: c.Fns}
+	r := &ref{g: c.G, fns: c.Fns, limit: c.stepLimit()}
 	done := r.block(c.Prog, nil, c.Depth)
 	switch done.kind {
 	case cNormal:
